@@ -6,7 +6,8 @@
    an independent reference accessory).  Partial: strength of the primitives and
    their byte encodings are outside the model. *)
 From Coq Require Import List NArith Arith Bool Lia.
-From AHK Require Import Lib.Res Lib.ByteStr Model.Tlv Model.Sym Model.Verify Proofs.SymFacts Proofs.VerifyFacts.
+From AHK Require Import Lib.Res Lib.ByteStr Model.Tlv Model.Sym Model.Verify Model.VerifyHist
+     Proofs.SymFacts Proofs.VerifyFacts Proofs.VerifyHistFacts.
 Import ListNotations.
 
 (* SOUNDNESS.  For every transport, pairing record, ephemeral key, resume state
@@ -182,6 +183,83 @@ Example c01_tamper_nonvacuous :
   end.
 Proof. vm_compute. exact I. Qed.
 
+(* ==== HISTORIES: sessions on one live connection / pairing object (Model/VerifyHist.v) ====
+   g_step models what the transport glue keeps between pair-verify attempts: the installed
+   keys, liveness, and (BLE) the resumable session. *)
+
+(* For EVERY history of verify attempts (any replies), drops and resets, on every transport:
+   whatever keys are installed are glue(k) for a ROOTED secret k - one that comes from an exchange
+   signed by the holder of the STORED long-term key, or from a chain of resumes each of whose tags
+   was made from a rooted secret; the resumable session kept by BLE is rooted as well (and IP/CoAP
+   keep none); a live session always has keys.  In particular a failed, replayed or forged
+   attempt can never make a later resume acceptable. *)
+Theorem hist_rooted : forall tr pd h, g_inv tr pd (g_run tr pd h).
+Proof. exact g_run_inv_l. Qed.
+
+Theorem hist_snoc : forall tr pd h ev, g_run tr pd (h ++ [ev]) = g_step tr pd (g_run tr pd h) ev.
+Proof. exact g_run_snoc. Qed.
+
+(* after a successful verify the session is live and ALL installed keys (c2a, a2c and, on CoAP,
+   the event key) are the glue of THIS run's secret - whatever the earlier history was; BLE
+   remembers exactly this session for resumption *)
+Theorem hist_verify_done : forall tr pd st eph m2 m4 sid k,
+    pv_run tr pd eph (match tr with TBLE => gs_resume st | _ => None end) m2 m4 = PDone sid k ->
+    let st' := g_verify tr pd st eph m2 m4 in
+    gs_live st' = true /\ gs_keys st' = Some (glue tr k) /\
+    (tr = TBLE -> gs_resume st' = Some {| rs_sid := sid; rs_secret := k |}).
+Proof. exact g_verify_done_l. Qed.
+
+(* a failed attempt installs nothing: BLE state is untouched, IP ends dead, CoAP ends not live *)
+Theorem hist_verify_fail : forall tr pd st eph m2 m4,
+    (forall sid k, pv_run tr pd eph (match tr with TBLE => gs_resume st | _ => None end) m2 m4 <> PDone sid k) ->
+    g_verify tr pd st eph m2 m4 = g_verify_failed tr st.
+Proof. exact g_verify_fail_l. Qed.
+
+Theorem hist_drop_dead : forall tr st,
+    gs_live (g_drop tr st) = false /\ (tr <> TCOAP -> gs_keys (g_drop tr st) = None) /\
+    (tr = TBLE -> gs_resume (g_drop tr st) = gs_resume st).
+Proof. exact g_drop_dead_l. Qed.
+
+(* an on-path attacker replays the honest M2 (and any M4) of ANOTHER session (controller ephemeral
+   eph' <> eph) into any state of the machine, resume state or not: the attempt fails *)
+Theorem hist_replay_rejected : forall tr pd st eph eph' L b m4,
+    pd_acc_ltpk pd = s_pub L -> eph' <> eph ->
+    let P := s_pub b in
+    let m2 := m2_shape [AByte 2] P (pv_key (s_dh eph' P)) N_pv02 [] (lit (pd_acc_id pd))
+                       (s_sign L (P ++ lit (pd_acc_id pd) ++ s_pub eph')) in
+    g_verify tr pd st eph m2 m4 = g_verify_failed tr st.
+Proof. exact g_replay_rejected_l. Qed.
+
+(* non-vacuity: verify, drop, verify again (BLE: a real resume), then a replay of session 1 *)
+Definition ex_hist (tr : transport) : list gev :=
+  let a1 := ex_acc in
+  let t1 := pv_exchange tr ex_pd 22 None a1 None None in
+  let m2_1 := tr_m2_spec t1 in
+  let st1 := g_run tr ex_pd [EVerify 22 m2_1 [(T_state, [AByte 4])]] in
+  let a2 := {| ac_id := ac_id a1; ac_ltsk := 11; ac_eph := 23; ac_ctrl_id := ac_ctrl_id a1;
+               ac_ctrl_ltpk := ac_ctrl_ltpk a1; ac_session := gs_resume st1; ac_new_sid := ac_new_sid a1 |} in
+  let m2_2 := fst (acc_m2 a2 (pv_m1 24 (gs_resume st1))) in
+  [EVerify 22 m2_1 [(T_state, [AByte 4])]; EDrop; EVerify 24 m2_2 [(T_state, [AByte 4])];
+   EVerify 26 m2_1 [(T_state, [AByte 4])]].
+
+Example c01_hist_nonvacuous :
+  forallb (fun tr =>
+    match g_trace tr ex_pd g_init (ex_hist tr) with
+    | [s1; s2; s3; s4] =>
+        gs_live s1 && negb (gs_live s2) && gs_live s3 &&
+        (* the second session's keys differ from the first's, the replay changes nothing useful *)
+        match gs_keys s1, gs_keys s3 with
+        | Some k1, Some k3 => negb (keys_eqb k1 k3)
+        | _, _ => false
+        end &&
+        match tr with
+        | TBLE => match gs_keys s4, gs_keys s3 with Some a, Some b => keys_eqb a b | _, _ => false end
+        | _ => negb (gs_live s4)
+        end
+    | _ => false
+    end) [TIP; TBLE; TCOAP] = true.
+Proof. vm_compute. reflexivity. Qed.
+
 Print Assumptions pv_sound.
 Print Assumptions pv_components_pinned.
 Print Assumptions pv_tampered_fails.
@@ -195,3 +273,9 @@ Print Assumptions pv_no_keys_on_fail.
 Print Assumptions pv_complete.
 Print Assumptions pv_complete_resume.
 Print Assumptions cat3_inj.
+Print Assumptions hist_rooted.
+Print Assumptions hist_snoc.
+Print Assumptions hist_verify_done.
+Print Assumptions hist_verify_fail.
+Print Assumptions hist_drop_dead.
+Print Assumptions hist_replay_rejected.
